@@ -148,6 +148,10 @@ structure DSt where
   liveSent : Nat := 0
   otherTypeSecs : Nat := 0
   framedJunk : Nat := 0
+  torn : TornSt := {}
+  caseTorn : Bool := false
+  tornBad : Nat := 0
+  behindTorn : Nat := 0
 
 def limit : Nat := 50000
 
@@ -184,6 +188,12 @@ def finish (d : DSt) (n : Nat) (op : String) (node : DNode) (implObs modelObs : 
       d := if k == .replayFileName then { d with caseConfReplay := true, confReplay := d.confReplay + 1 }
            else { d with caseConfOther := true, confOther := d.confOther + 1 }
     | none => pure ()
+    -- clause persisted_after_crash_replayed, evaluated on its own: once per case
+    let (okT, tn') := tornStep d.sp d.torn ⟨ev, pos⟩
+    d := { d with behindTorn := d.behindTorn + (tn'.behind.length - d.torn.behind.length), torn := tn' }
+    if !okT then
+      if !d.caseTorn then IO.println s!"SPECFAIL line={n} case={d.caseNo} clause=persisted_after_crash_replayed"
+      d := { d with caseTorn := true, tornBad := d.tornBad + 1 }
     let (bad, sp') := specStep d.sp ⟨ev, pos⟩
     d := { d with sp := sp' }
     match bad with
@@ -258,7 +268,7 @@ def handle (d : DSt) (n : Nat) (line : String) : IO DSt := do
       return { d with node := { snd := start now {}, peers := peers, paFirst := pf, satRev := sr, topRev := tr, table := [] },
                       sp := specInit durs,
                       caseNo := d.caseNo + 1, caseFailed := false, caseDelivered := false,
-                      caseConfReplay := false, caseConfOther := false, caseAdvance := false, sy := {}, caseSync := false }
+                      caseConfReplay := false, caseConfOther := false, caseAdvance := false, sy := {}, caseSync := false, torn := {}, caseTorn := false }
     | _, _, _, _, _ => bad
   | "relay" :: now :: id :: sec :: _, [frame, live, nf, pos] =>
     match parseInt? now, parseNat? id, parseSec sec, unhex frame, parseNat? live, parseOptInt nf with
@@ -410,4 +420,4 @@ def handle (d : DSt) (n : Nat) (line : String) : IO DSt := do
 def main : IO Unit := do
   let stdin ← IO.getStdin
   let d ← foldLines stdin handle ({} : DSt)
-  IO.println s!"STATS cases={d.caseNo} steps={d.steps} relays={d.relays} logged={d.logged} replays={d.replays} probes={d.probes} damaged_replays={d.damagedReplays} delivered={d.delivered} setpos_in_replay={d.setposSeen} rotations={d.rotations} deletions={d.deletions} restarts={d.restarts} recv_dropped={d.recvDropped} skipped_advances={d.skippedAdv} nontrivial={d.nontrivial} mismatches={d.mismatches} specfails={d.specfails} died={d.died} confirm_beyond_replay_file_name={d.confReplay} confirm_beyond_other={d.confOther} dumps={d.dumps} setpos_queue_differs_from_model={d.setposDiff} position_advance_unjustified={d.advanceBad} records_over_1MB={d.bigRecords} sync_clause_failures={d.syncBad} attach_without_sync={d.attaches} relays_sent_live={d.liveSent} events_about_other_type_objects={d.otherTypeSecs} probes_with_well_framed_junk={d.framedJunk}"
+  IO.println s!"STATS cases={d.caseNo} steps={d.steps} relays={d.relays} logged={d.logged} replays={d.replays} probes={d.probes} damaged_replays={d.damagedReplays} delivered={d.delivered} setpos_in_replay={d.setposSeen} rotations={d.rotations} deletions={d.deletions} restarts={d.restarts} recv_dropped={d.recvDropped} skipped_advances={d.skippedAdv} nontrivial={d.nontrivial} mismatches={d.mismatches} specfails={d.specfails} died={d.died} confirm_beyond_replay_file_name={d.confReplay} confirm_beyond_other={d.confOther} dumps={d.dumps} setpos_queue_differs_from_model={d.setposDiff} position_advance_unjustified={d.advanceBad} records_over_1MB={d.bigRecords} sync_clause_failures={d.syncBad} attach_without_sync={d.attaches} relays_sent_live={d.liveSent} events_about_other_type_objects={d.otherTypeSecs} probes_with_well_framed_junk={d.framedJunk} events_appended_behind_torn_frame={d.behindTorn} persisted_after_crash_not_replayed={d.tornBad}"
